@@ -99,7 +99,7 @@ class DnsRecordDnskey(ParsableBase, Serializable):
             exponent_length = key_parser['exponent_length_two_octets']
         key_parser.parse_mpint('public_exponent', exponent_length)
         key_parser.parse_mpint('modulus', key_parser.unparsed_length)
-        if key_parser['modulus'] == 0:
+        if key_parser['modulus'] <= 1:
             raise InvalidValue(key_parser['modulus'], cls, 'modulus')
 
         return PublicKey.from_params(PublicKeyParamsRsa(
